@@ -944,12 +944,39 @@ def d18_index_below_len(body, site):
     return None
 
 
+def d19_enumerate_counter(body, site):
+    """`i + c` with a small constant c where i is the counter yielded by Enumerate::next(): i < len <= isize::MAX"""
+    if site.kind != "assert:Overflow:Add":
+        return None
+    m = site.term["msg"]
+    c = const_val(m["b"])
+    if not isinstance(c, int) or not (0 <= c <= 1024):
+        return None
+    cur = op_place(m["a"])
+    for _ in range(6):
+        if cur is None:
+            return None
+        if cur["pr"] == ["@Some", ".0", ".0"]:
+            ds = body.defs_of(cur["l"])
+            if len(ds) == 1 and ds[0][3].get("k") == "Call" and "enumerate::Enumerate" in str(ds[0][3].get("inst") or "") and \
+                    str(ds[0][3].get("inst")).endswith("::next"):
+                return "D19 counter of enumerate() plus %d (the counter is below the length of a collection)" % c
+            return None
+        if cur["pr"]:
+            return None
+        ds = body.defs_of(cur["l"])
+        if len(ds) != 1 or ds[0][3].get("k") != "Use" or "p" not in ds[0][3]["o"]:
+            return None
+        cur = ds[0][3]["o"]["p"]
+    return None
+
+
 RULES = [d1_guarded_receiver, d2_valid_constant, d3_bounded_index, d4_guarded_sub, d5_counter_increment, d8_constant_arithmetic, d7_macro_glue]
 
 
 def discharge(prog, sites, extra_rules=()):
     rules = RULES + [d3b_constant_range, d3c_fixed_vec, d3d_first_of_nonempty, d12_array_from_slice, d13_captures_group0,
-                     d14_constant_divisor, d1b_nonempty, d15_contains_key, d17_nonempty_range, d18_index_below_len,
+                     d14_constant_divisor, d1b_nonempty, d15_contains_key, d17_nonempty_range, d18_index_below_len, d19_enumerate_counter,
                      d9_default_config(prog)] + list(extra_rules)
     for s in sites:
         body = prog.body(s.fn)
